@@ -20,7 +20,12 @@ TSpec == TInit /\ [][TNext]_l
 
 FailSet(rec) == {rec.fn_fail[j] : j \in 1..Len(rec.fn_fail)}
 Caught(rec) == IF rec.cfe = 1 /\ rec.fail_kind = "filter" THEN FailSet(rec) ELSE {}
-ExpOf(rec) == SeqExpect(rec.n, rec.n + 1, "none", FailSet(rec), Caught(rec))
+\* shape "range": the workload is map(fn) over range(n), its sequential meaning
+\* is computed here; shape "pipeline": the pool workers index a structured
+\* pipeline they share, the record carries what the plain sequential pipeline
+\* delivered (coded values, taken without any pool before the run)
+ExpOf(rec) == IF rec.shape = "pipeline" THEN [items |-> rec.seq, out |-> "returned"]
+              ELSE SeqExpect(rec.n, rec.n + 1, "none", FailSet(rec), Caught(rec))
 
 \* C04 also demands the same len() (when the dataset offers one)
 DS_C04(rec) ==
